@@ -545,6 +545,15 @@ func init() {
 			h.Blocks[6].Opts.Absent = []string{"V1"}
 			return h
 		}, Menu: []sim.TxSpec{stk("U1", "V1", "1R")}, WithEnv: true, NAppend: 1, MaxD: 1, MaxDTh: 2, Restarts: []int64{4, 5, 6}})
+		// the jailing rule's own parameters are changed by governance in mid-history (window 3 -> 2, minimum 2 -> 2: from then on
+		// a single miss jails); per-block absent patterns on both sides of the change
+		fams = append(fams, family{Name: "jail/window-changed-by-governance", Base: func() sim.History {
+			h := c14History(genesis3s())
+			h.Blocks[2].Txs = []sim.TxSpec{prop("V0", 1, 1, 1, `{"signedBlocksWindow":"2","minSignedBlocks":"2"}`)}
+			h.Blocks[3].Txs = []sim.TxSpec{vote("V0", 0, 0), vote("V1", 0, 0), vote("V2", 0, 0)}
+			return h
+		}, Menu: []sim.TxSpec{stk("U1", "V1", "1R")}, WithEnv: true, NAppend: 1, MaxD: 2, MaxDTh: 2,
+			Core: func(ss *slotSet, s slot, ch int) bool { return s.kind == slotAbsent }})
 		return &modelCheck{id: "C14", owners: map[string]bool{"C14": true}, families: fams, extra: slashFrame,
 			meta: modelMeta("deviation-bounded exhaustive exploration of evidence / missed-signature sequences with reference model (amounts) and per-block frame condition",
 				"C14 families: a validator with stakes of power 10,1,2,3 (so that rounding and forfeiture fire) and another with 8,5, an open two-option proposal with the offenders' votes, slash ratio in {1,33,50,100}, (window,minimum) in {(3,2),(2,2),(4,1)}; per-block evidence entry from {V1, unknown address, V2, V1 twice, V1+V2, a non-validator} and per-block missed-signature pattern, in every pair of blocks (thorough: triples); two families whose base history has a validator miss signatures on both sides of a node restart (restart after height 4, 5 or 6; window/minimum (3,2) and (4,2)). "+
@@ -661,6 +670,18 @@ func init() {
 			h.Blocks[3].Txs = []sim.TxSpec{vote("V0", 0, 0), vote("V1", 0, 0), vote("V2", 0, 0)}
 			return h
 		}, Menu: c15Menu(), WithEnv: true, NAppend: 1, MaxD: 1, MaxDTh: 2})
+		// the limits that govern proposals themselves are changed by a passed proposal; afterwards proposals are submitted
+		// whose voting period / applying height are valid under exactly one of the two parameter sets
+		fams = append(fams, family{Name: "governance/limits-changed", Base: func() sim.History {
+			h := c15History(genesis3())
+			h.Blocks[2].Txs = []sim.TxSpec{prop("V0", 1, 1, 1, `{"minVotingPeriodBlocks":"2","maxVotingPeriodBlocks":"2","lazyApplyingBlocks":"2"}`)}
+			h.Blocks[3].Txs = []sim.TxSpec{vote("V0", 0, 0), vote("V1", 0, 0), vote("V2", 0, 0)}
+			return h
+		}, Menu: []sim.TxSpec{
+			prop("V1", 1, 1, 1, `{"gasPrice":"4"}`), prop("V1", 1, 2, 2, `{"gasPrice":"4"}`), prop("V1", 1, 2, 1, `{"gasPrice":"4"}`),
+			prop("V1", 1, 3, 2, `{"gasPrice":"4"}`), prop("V1", 1, 1, 2, `{"gasPrice":"4"}`), prop("V1", 1, 3, 1, `{"gasPrice":"4"}`),
+			vote("V0", 1, 0), vote("V1", 1, 0), vote("V2", 1, 0),
+		}, WithEnv: true, NAppend: 1, MaxD: 2, MaxDTh: 3, Core: coreAppend(blocksSet(4, 5, 6, 7), 9, 0)})
 		// votes trickle in over two blocks and do not reach the majority; single deviations add delivered or mempool-only votes
 		fams = append(fams, family{Name: "governance/partial-votes", Base: func() sim.History {
 			h := c15History(genesis3())
@@ -671,7 +692,7 @@ func init() {
 		}, Menu: c15Menu(), WithEnv: true, NAppend: 1, TxSlots: true, MaxD: 1, MaxDTh: 2})
 		return &modelCheck{id: "C15", owners: map[string]bool{"C15": true}, families: fams, extra: govProbe,
 			meta: modelMeta("deviation-bounded exhaustive history exploration with reference model of proposals, votes, tally and timed application",
-				"C15 families: 0-3 inserted governance transactions per block from a 28-template menu (proposals by validator / later-joined validator / delegator / stranger with start-period-applying heights from {invalid-early, minimal, later, too long, applying too early}, option documents {one field, several fields, two options, empty}; votes and re-votes by snapshot members, a validator that joined later, outsiders, bad choice; votes and a proposal that only reach the mempool check (CheckTx, never delivered); stake changes meanwhile), evidence against voters, a family with two passed proposals applying at the SAME height, one whose applying height lies several blocks after the close (parameters must not move before it), and one in which votes trickle in over two blocks without reaching the majority; 10 blocks; D<=2 (thorough 3). "+
+				"C15 families: 0-3 inserted governance transactions per block from a 28-template menu (proposals by validator / later-joined validator / delegator / stranger with start-period-applying heights from {invalid-early, minimal, later, too long, applying too early}, option documents {one field, several fields, two options, empty}; votes and re-votes by snapshot members, a validator that joined later, outsiders, bad choice; votes and a proposal that only reach the mempool check (CheckTx, never delivered); stake changes meanwhile), evidence against voters, a family with two passed proposals applying at the SAME height, one whose applying height lies several blocks after the close (parameters must not move before it), one in which votes trickle in over two blocks without reaching the majority, and one in which a passed proposal changes the voting-period limits and the applying delay themselves (later proposals valid under exactly one of the two parameter sets); 10 blocks; D<=2 (thorough 3). "+
 					"Oracle: success conditions as necessary conditions (proposer in the validator set last reported, voter in the snapshot with the power recorded then, height inside the window, one vote per voter - the latest replaces); tally from the snapshot powers; pass iff at close some option >= floor(2T/3) of the recorded total; parameters unchanged before the applying height; after application every field the option leaves unset keeps its value (also relative to a second proposal applied in the same block); parameters in force == gov_params query == model at every height.")}
 	})
 }
